@@ -26,5 +26,7 @@ From Chess3 Require Export Model.C05Streams.
 From Chess3 Require Export Spec.C05Judge.
 From Chess3 Require Export Model.Uci Spec.UciSpec.
 From Chess3 Require Export Model.Vector Model.EvalU Spec.TunerSpec.
+From Chess3 Require Export Model.MateStreams.
+From Chess3 Require Export Spec.MateJudge.
 
 Extraction Language OCaml.
